@@ -1445,6 +1445,13 @@ def run(ctx):
             continue
         cases.append({"files": {r: b.hex() for r, b in files.items()}, "dirs": dirs, "big_files": big,
                       "configs": pick_configs(ctx, 2 if quick else 4)})
+    # boundary of the large-file split of _hash_files: EXACTLY ONE file above the threshold (folded back into the
+    # inline path) - among small files, and alone in a sub-directory; fixed cases, every run
+    cases.append({"files": {"s1": b"small one".hex(), "d/s2": b"small two".hex()}, "dirs": ["d"],
+                  "big_files": {"lone-big": [8101, (1 << 20) + 17]}, "configs": pick_configs(ctx, 2)})
+    cases.append({"files": {"s1": b"x".hex()}, "dirs": ["only"],
+                  "big_files": {"only/big": [8102, (1 << 20) + 1]}, "configs": pick_configs(ctx, 1)})
+    dim(ctx, "exactly one file above the large-file threshold (among small files / alone in a directory)")
     items_obj, items_idx, items_bad, items_file, items_hist = [], [], [], [], []
     for case in cases:
         tree_case(ctx, case, items_obj, items_idx, items_bad, items_hist)
